@@ -158,15 +158,21 @@ def map_conc(case):
     answers = [[] for _ in range(G)]
     # "enter" stamps precede Lock(): they carry no label and may fall anywhere, also inside another
     # goroutine's critical section — which is how lock contention is measured
-    contended = 0; holder = None
+    contended = 0; holder = None; hkey = None; waiting = {}; samekey = 0
     for e in case['log']:
         p = e['p']
         if p.endswith('.enter'):
             contended += 1 if holder is not None and holder != e['tid'] else 0
+            waiting[e['tid']] = e['k'][0]
         elif p.endswith('.locked'):
             holder = e['tid'] if e['tid'] >= 0 else G
+            waiting.pop(e['tid'], None)
+        elif p.endswith('.inserted'):
+            # a fresh key is being recorded while others are already queued at Lock() with the same key
+            samekey += sum(1 for t, k in waiting.items() if k == e['k'][0])
         elif p.endswith('.unlock'):
             holder = None
+    case['_samekey'] = samekey
     log = [e for e in case['log'] if not e['p'].endswith('.enter')]
     clock = case['t0_ns']
     def adv(t):
@@ -308,13 +314,13 @@ def check_conc(pid, name, cases, res):
         vio = dict(r['R_vio']); mis = dict(r['R_mis'])
         for i, (case, _, contended, stats) in enumerate(chunk):
             reacc, dups, removed = r['R_stat'][i]
-            st = dict(stats, contended_lock_acquisitions=contended, keys_accepted_again_after_deletion=reacc)
+            st = dict(stats, contended_lock_acquisitions=contended, keys_accepted_again_after_deletion=reacc, racers_queued_behind_a_fresh_insert_of_their_key=case.get('_samekey', 0))
             if len(case['threads']) > 1 and dups > 0:
                 res.nontrivial.add(('conc', case['mode'], case['hasher'], len(case['threads']), dups, reacc, removed, contended > 0))
-            res.extra.setdefault('concurrent', dict(cases=0, replayed=0, contended_cases=0, duplicate_answers=0, keys_deleted=0, reaccepted_keys=0, sweeps=0))
+            res.extra.setdefault('concurrent', dict(cases=0, replayed=0, contended_cases=0, cases_with_racers_queued_behind_a_fresh_insert_of_their_key=0, duplicate_answers=0, keys_deleted=0, reaccepted_keys=0, sweeps=0))
             cc = res.extra['concurrent']
             cc['cases'] += 1; cc['replayed'] += 0 if i in mis and 1 in mis[i] else 1
-            cc['contended_cases'] += 1 if contended else 0; cc['duplicate_answers'] += dups
+            cc['contended_cases'] += 1 if contended else 0; cc['cases_with_racers_queued_behind_a_fresh_insert_of_their_key'] += 1 if case.get('_samekey') else 0; cc['duplicate_answers'] += dups
             cc['keys_deleted'] += removed; cc['reaccepted_keys'] += reacc; cc['sweeps'] += stats['sweeps']
             codes = vio.get(i, [])
             if 20 in codes:
